@@ -230,6 +230,19 @@ def eval_agg(case):
         for j in range(i + 1, nmol):
             if spec["J"][i][j] != 0.0:
                 agg.set_resonance_coupling(i, j, spec["J"][i][j])
+    if case.get("history") == "second-build":
+        # HISTORY: the same Aggregate object was built before with other displacements; the
+        # displacements are then set to the values of this case and build() is called again
+        olds = []
+        for m in mols:
+            for k in range(m.get_number_of_modes()):
+                md = m.get_Mode(k)
+                olds.append((md, md.get_shift(1)))
+                md.set_shift(1, md.get_shift(1) + 0.9)
+        agg.build(mult=mult)
+        isolation.reset_units()
+        for md, sh in olds:
+            md.set_shift(1, sh)
     try:
         agg.build(mult=mult)
     except IndexError as e:
@@ -557,6 +570,8 @@ def sections(tier):
         sec["3mol-1mode"] = _section([1, 1, 1], q4, {"J": [J1], "mult": [1, 2]})
         sec["limit"] = [{"kind": "agg", "nm": [1], "slots": [{"S": 0.5, "sg": 1, "n0": n0, "n1": n1}]}
                         for (n0, n1) in ((2, 21), (21, 2))]
+        sec["second-build"] = (_section([1], q16, {"d0": [0.0], "history": ["second-build"]}) +
+                               _section([1, 1], q6, {"J": [J1], "history": ["second-build"]}))
         # many declared levels / large Huang-Rhys factors (the upper end of the 20-level table)
         hi = _slot_alphabet([(1, 1), (3, -1), (6, 1)], [(12, 20), (20, 12), (20, 20), (2, 16)])
         sec["1mol-many-levels"] = _section([1], hi, {"d0": [0.0]})
